@@ -54,7 +54,7 @@ runs_for() { # $1 target $2 tier $3 kind
     wmo_root)   q=30000;  t=700000;;
     wmo_group)  q=200000; t=4000000;;
     blp)        q=15000;  t=350000;;
-    dbc)        q=400000; t=5000000;;
+    dbc)        q=200000; t=2500000;;   # schema-driven access paths since wave 4: ≈4400 exec/s
     wdt)        q=25000;  t=600000;;
     wdl)        q=50000;  t=1200000;;
     attributes) q=300000; t=4000000;;
